@@ -67,6 +67,7 @@ type Unit struct {
 	knownRefs  []Term
 	rootCaller map[string]Term
 	onceDepth  int
+	curState   *State
 	catDone    bool
 	catTerms   []Term
 	closedChans map[string]bool
@@ -112,6 +113,10 @@ func sortSMT(s Sort) string {
 		return "(Array Int Bool)"
 	case SArrReal:
 		return "(Array Int Real)"
+	case SArr2Int:
+		return "(Array Int (Array Int Int))"
+	case SArr2Bool:
+		return "(Array Int (Array Int Bool))"
 	}
 	return "Int"
 }
@@ -120,10 +125,16 @@ const (
 	SArrInt Sort = iota + 10
 	SArrBool
 	SArrReal
+	SArr2Int
+	SArr2Bool
 )
 
 func arrSortFor(elem Sort) Sort {
 	switch elem {
+	case SArrInt:
+		return SArr2Int
+	case SArrBool:
+		return SArr2Bool
 	case SBool:
 		return SArrBool
 	case SReal:
@@ -134,6 +145,10 @@ func arrSortFor(elem Sort) Sort {
 
 func elemSortOf(arr Sort) Sort {
 	switch arr {
+	case SArr2Int:
+		return SArrInt
+	case SArr2Bool:
+		return SArrBool
 	case SArrBool:
 		return SBool
 	case SArrReal:
@@ -534,6 +549,9 @@ func (u *Unit) rawHeap(st *State, root string, path []string, base Term, lt type
 		return sv
 	}
 	key := pathKey(root, path)
+	if _, isMap := lt.Underlying().(*types.Map); isMap {
+		return &MapV{Base: base, Key: key, Typ: lt}
+	}
 	arr := u.heapArr(st, key, u.leafSort(lt))
 	return &Scalar{T: SelectA(arr, base), Typ: lt, Origin: "field:" + key}
 }
@@ -586,6 +604,14 @@ func (u *Unit) loadHeap(fr *Frame, st *State, p *PtrV, where string, code bool) 
 	}
 	key := pathKey(p.Root, p.Path)
 	fd := u.eng.fieldDecl(p.Root, p.Path)
+	if _, isMap := p.Elem.Underlying().(*types.Map); isMap {
+		// a map stored in a field: modelled as has/val arrays per owning object
+		if fd != nil && fd.Class == "guarded_by" && !isOwnAlloc(p.Base) {
+			lk := u.lockKeyFor(fd)
+			u.oblige("guarded_by("+key+").read", []string{"C20"}, "", st.pc, Cmp(">=", u.heldTerm(st, lk, p.Base), IntLit(1)), where, "read of "+key+" requires "+lk)
+		}
+		return &MapV{Base: p.Base, Key: key, Typ: p.Elem}
+	}
 	arr := u.heapArr(st, key, u.leafSort(p.Elem))
 	cur := SelectA(arr, p.Base)
 	out := &Scalar{T: cur, Typ: p.Elem, Origin: "field:" + key}
@@ -652,6 +678,14 @@ func (u *Unit) storeHeap(fr *Frame, st *State, p *PtrV, v Val, where string) {
 	}
 	key := pathKey(p.Root, p.Path)
 	fd := u.eng.fieldDecl(p.Root, p.Path)
+	if _, isMap := p.Elem.Underlying().(*types.Map); isMap {
+		if fd != nil && fd.Class == "guarded_by" && !isOwnAlloc(p.Base) {
+			lk := u.lockKeyFor(fd)
+			u.oblige("guarded_by("+key+").write", []string{"C20"}, "", st.pc, Eq(u.heldTerm(st, lk, p.Base), IntLit(2)), where, "write of "+key+" requires "+lk+" write-held")
+		}
+		u.storeMapField(st, p.Base, key, v)
+		return
+	}
 	t, ok := valTerm(v)
 	if !ok {
 		// function values / closures stored into fields: opaque non-nil id
@@ -895,6 +929,10 @@ func (u *Unit) mergeVals(c Term, a, b Val) Val {
 			if x.Cell == nil && y.Cell == nil && x.Root == y.Root && strings.Join(x.Path, ".") == strings.Join(y.Path, ".") {
 				return &PtrV{Base: Ite(c, x.Base, y.Base), Root: x.Root, Path: x.Path, Elem: x.Elem, RTyp: x.RTyp}
 			}
+		}
+	case *MapV:
+		if y, ok := b.(*MapV); ok && x.Key == y.Key {
+			return &MapV{Base: Ite(c, x.Base, y.Base), Key: x.Key, Typ: x.Typ}
 		}
 	case *ClosureV:
 		if y, ok := b.(*ClosureV); ok && x.Fn == y.Fn {
@@ -1683,6 +1721,8 @@ func (u *Unit) termOf(v Val) Term {
 	switch x := v.(type) {
 	case *ClosureV:
 		return u.closureID(x)
+	case *MapV:
+		return Ite(u.mapNil(nil, x), TZero, IntLit(1))
 	case *PtrV:
 		if x.Cell != nil {
 			return IntLit(int64(-100000 - x.Cell.ID))
@@ -1693,4 +1733,70 @@ func (u *Unit) termOf(v Val) Term {
 	}
 	u.note("termOf on %T", v)
 	return u.fresh(SInt, "opaque")
+}
+
+// ---------------------------------------------------------------- maps stored in fields
+
+// MapV is a Go map held in a field of a heap object. Its contents are two
+// arrays per owning object (presence and value), plus a nil flag.
+type MapV struct {
+	Base Term
+	Key  string
+	Typ  types.Type
+	st   *State
+}
+
+func (u *Unit) mapArrs(st *State, m *MapV) (has, val, isnil Term) {
+	has = u.heapArr(st, m.Key+"#has", SArrBool)
+	val = u.heapArr(st, m.Key+"#val", SArrInt)
+	isnil = u.heapArr(st, m.Key+"#nil", SBool)
+	return
+}
+
+func (u *Unit) mapNil(st *State, m *MapV) Term {
+	if st == nil {
+		st = u.curState
+	}
+	if st == nil {
+		return u.fresh(SBool, "mapnil")
+	}
+	_, _, n := u.mapArrs(st, m)
+	return SelectA(n, m.Base)
+}
+
+func (u *Unit) mapLookup(st *State, m *MapV, k Term) (Term, Term) {
+	has, val, isnil := u.mapArrs(st, m)
+	// a nil map has no entries
+	return SelectA(SelectA(val, m.Base), k), And(Not(SelectA(isnil, m.Base)), SelectA(SelectA(has, m.Base), k))
+}
+
+func (u *Unit) mapStore(st *State, m *MapV, k, v Term, present Term) {
+	has, val, _ := u.mapArrs(st, m)
+	st.heap[m.Key+"#has"] = u.define(StoreA(has, m.Base, StoreA(SelectA(has, m.Base), k, present)), "Mh")
+	if !present.IsFalse() {
+		st.heap[m.Key+"#val"] = u.define(StoreA(val, m.Base, StoreA(SelectA(val, m.Base), k, v)), "Mv")
+	}
+}
+
+// storeMapField: field = make(map...) | nil | another map field
+func (u *Unit) storeMapField(st *State, base Term, key string, v Val) {
+	m := &MapV{Base: base, Key: key}
+	has, val, isnil := u.mapArrs(st, m)
+	switch x := v.(type) {
+	case *MapV:
+		h2, v2, n2 := u.mapArrs(st, x)
+		st.heap[key+"#has"] = u.define(StoreA(has, base, SelectA(h2, x.Base)), "Mh")
+		st.heap[key+"#val"] = u.define(StoreA(val, base, SelectA(v2, x.Base)), "Mv")
+		st.heap[key+"#nil"] = u.define(StoreA(isnil, base, SelectA(n2, x.Base)), "Mn")
+	case *Scalar:
+		if x.Origin == "map" {
+			// fresh empty map
+			st.heap[key+"#has"] = u.define(StoreA(has, base, Term{"((as const (Array Int Bool)) false)", SArrBool}), "Mh")
+			st.heap[key+"#nil"] = u.define(StoreA(isnil, base, TFalse), "Mn")
+			return
+		}
+		// nil (or unknown) map
+		st.heap[key+"#nil"] = u.define(StoreA(isnil, base, Eq(x.T, TZero)), "Mn")
+		st.heap[key+"#has"] = u.define(StoreA(has, base, u.fresh(SArrBool, "maphas")), "Mh")
+	}
 }
